@@ -92,6 +92,7 @@ class Daemon(object):
             if time.time() > deadline:
                 break
             time.sleep(0.005)
+        self.came_up = os.path.exists(self.sock)
 
     @property
     def address(self):
@@ -200,6 +201,11 @@ class Daemon(object):
         if cls:
             out.append((cls[0], cls[1], err[-4000:]))
         st = self.exit_status
+        if st == -signal.SIGTERM and not cls and not self.came_up:
+            # our own SIGTERM reached a daemon that had not finished starting (its socket never appeared within the deadline -
+            # seen only on a heavily loaded machine): it died before it could install its handler.  The caller has already
+            # reported 'daemon did not start' as inconclusive; this is not something the bus did wrong.
+            return out
         if st not in (0, None) and not cls:
             out.append(("exit:%s" % st, "daemon", err[-2000:]))
         return out
